@@ -203,7 +203,7 @@ var lowOrderX25519 = []string{
 }
 
 func genEcdhOps(r *rand.Rand, n int) []string {
-	var out []string
+	var out, extra []string // extra: appended after the rest
 	dhOps := [][]int{{7}, {8}, {7, 8}, {}, {1}, {7, 3}}
 	for i := 0; i < n; i++ {
 		crv := 1 + r.Intn(4)
@@ -302,6 +302,19 @@ func genEcdhOps(r *rand.Rand, n int) []string {
 			out = append(out, fmt.Sprintf("ecdh.derive %s | %s | same", local, foreign), "ecdh.topublic "+foreignPriv, "ecdh.topublic "+foreign,
 				fmt.Sprintf("ecdh.derive %s | %s | same", foreignPriv, remote))
 		}
+		if i%6 == 1 {
+			// fixed slots, every curve and public form in turn: a key pair agreeing with itself (the remote key is the local
+			// public key — a reflected or loop-back key): an agreement like any other, d·(d·G)
+			r2 := rand.New(rand.NewSource(int64(i)*32452843 + 5))
+			c2 := 1 + (i/6)%4
+			s2 := genDhKey(r2, c2)
+			f2 := 2 + (i/24)%4
+			if c2 == 4 {
+				f2 = 2
+			}
+			extra = append(extra, fmt.Sprintf("ecdh.derive %s | %s | same", s2.tokens(r2, (i/6)%2, nil), s2.tokens(r2, f2, nil)),
+				fmt.Sprintf("ecdh.symmetric %s | %s", s2.tokens(r2, 0, nil), s2.tokens(r2, 1, nil)))
+		}
 		after := "same"
 		if r.Intn(8) == 0 {
 			after = genOpsValue(r)
@@ -319,5 +332,5 @@ func genEcdhOps(r *rand.Rand, n int) []string {
 		out = append(out, fmt.Sprintf("ecdh.symmetric %s | %s", a.tokens(r, r.Intn(2), kidA), b.tokens(r, r.Intn(2), kidA)))
 		out = append(out, "ecdh.topublic "+a.tokens(r, r.Intn(3), extraA), "ecdh.compress "+b.tokens(r, r.Intn(5), kidA))
 	}
-	return out
+	return append(out, extra...)
 }
